@@ -7,6 +7,7 @@ package libp2p
 // disconnect notifications so far, and which handler contexts are cancelled.
 
 import (
+	"time"
 	"context"
 	"encoding/json"
 	"fmt"
@@ -60,6 +61,59 @@ type c14Stream struct {
 type c14Disc struct{ got []p2p.Peer }
 
 func (d *c14Disc) disconnected(p p2p.Peer) { d.got = append(d.got, p) }
+
+// a consumer of disconnect notifications that takes its time (the topology behind the registry)
+type c14SlowDisc struct {
+	hit  chan struct{}
+	gate chan struct{}
+	done chan struct{}
+}
+
+func (d *c14SlowDisc) disconnected(p2p.Peer) {
+	close(d.hit)
+	<-d.gate
+	close(d.done)
+}
+
+// c14NotifyOrder: the peer's last connection closes; while the disconnect notification is being
+// delivered the peer is admitted again over a new connection.  Whoever listens must hear
+// "disconnected" before that admission completes (else a stale "disconnected" follows "connected").
+func c14NotifyOrder() map[string]any {
+	res := map[string]any{"admission_completed_before_notification_delivered": false, "notified": false, "panic": false}
+	defer func() {
+		if r := recover(); r != nil {
+			res["panic"] = true
+		}
+	}()
+	r := newPeerRegistry()
+	d := &c14SlowDisc{hit: make(chan struct{}), gate: make(chan struct{}), done: make(chan struct{})}
+	r.setDisconnector(d)
+	pid := core.PeerID("peer-1")
+	p := &p2p.Peer{EthAddress: c14Addr(1), Type: p2p.PeerTypeProvider}
+	c1, c2 := &c14Conn{pid: pid, id: 1}, &c14Conn{pid: pid, id: 2}
+	r.addPeer(c1, p)
+	go r.Disconnected(nil, c1)
+	select {
+	case <-d.hit:
+	case <-time.After(2 * time.Second):
+		return res
+	}
+	res["notified"] = true
+	added := make(chan struct{})
+	go func() { r.addPeer(c2, p); close(added) }()
+	select {
+	case <-added:
+		res["admission_completed_before_notification_delivered"] = true
+	case <-time.After(30 * time.Millisecond):
+	}
+	close(d.gate)
+	<-d.done
+	select {
+	case <-added:
+	case <-time.After(2 * time.Second):
+	}
+	return res
+}
 
 func c14Addr(a uint64) common.Address { return common.BigToAddress(new(big.Int).SetUint64(a)) }
 func c14PeerStr(p *p2p.Peer) string {
@@ -171,6 +225,15 @@ func c14Run(in c14In) []c14Snap {
 	return res
 }
 
+// TestVerifC14Order: only the notification-order scenario (used as an extra harness by C05)
+func TestVerifC14Order(t *testing.T) {
+	out := newVout(t, "C14")
+	defer out.close()
+	for k := 0; k < 3; k++ {
+		out.emit(c14In{Tag: "notify-order", Ops: []c14Op{}}, c14NotifyOrder())
+	}
+}
+
 func TestVerifC14(t *testing.T) {
 	out := newVout(t, "C14")
 	defer out.close()
@@ -195,6 +258,9 @@ func TestVerifC14(t *testing.T) {
 		alphabet = append(alphabet, c14Op{T: "disconnected", C: 7, Pid: pid}) // never admitted connection
 		alphabet = append(alphabet, c14Op{T: "addStream", Pid: pid, S: 10 + pid})
 		alphabet = append(alphabet, c14Op{T: "removeStream", Pid: pid, S: 10 + pid})
+	}
+	for k := 0; k < 3; k++ {
+		out.emit(c14In{Tag: "notify-order", Ops: []c14Op{}}, c14NotifyOrder())
 	}
 	// handler life cycles the short enumeration cannot reach: a peer that was idle for a moment (its
 	// only handler returned) gets new handlers, then its last connection closes
